@@ -5,10 +5,13 @@
 -/
 import RoModel.DriverCore
 import RoModel.Drivers.Op
+import RoModel.Drivers.Chan
 namespace Ro.Driver
 
 def handlers : List (String × (Case → String)) := [
-  ("op", Drivers.Op.run)
+  ("op", Drivers.Op.run),
+  ("chan", Drivers.Chan.run),
+  ("chanv", Drivers.Chan.runV)
 ]
 
 def runCase (c : Case) : String :=
